@@ -141,7 +141,7 @@ Definition read_string (vt : option tyc) (lst : option (larm * lpay)) (j5 : opti
                   || match fmt with Some SfId62 => true | _ => false end
                   || match j5 with Some XKey => true | _ => false end in
                 if negb looks_like_key
-                then Ok (TStr rules open_text)
+                then Ok (TStr None rules open_text)
                 else Ok (TKey (match fmt with
                                | Some SfUuid => Some KUuid
                                | Some SfId62 => Some KId62
@@ -195,9 +195,8 @@ Definition read_field (env : enum_env) (k : pkind) (vt : option tyc) (lst : opti
       Ok (TDecimal (match j5 with Some (XDecimal r) => r | _ => None end) (get_list LDecimal lst))
   | KdAny =>
       match j5 with
-      | Some (XAny false []) | None => Ok (TAny (get_list LAny lst))
-      | Some (XAny _ _) => Err "any types outside the model"
-      | Some _ => Ok (TAny (get_list LAny lst))
+      | Some (XAny od ts) => Ok (TAny od ts (get_list LAny lst))
+      | _ => Ok (TAny false [] (get_list LAny lst))
       end
   | KdMsgObject => Ok (TObject (match j5 with Some (XObject fl) => fl | _ => false end))
   | KdMsgOneof => Ok (TOneof (get_list LOneof lst))
